@@ -61,6 +61,22 @@ CHECKS = {
             C_TIE + "The display callback, argparse and the deserialiser are exercised by the differential run only.",
             "Coq proof on the status classification + fuzz-style differential run of the real viewer",
             "DESIGN.md 3 C26"),
+    "C23": (True,
+            "Theorems (every depth >= 1, unbounded): sample pack/unpack round trip, padding bits masked, whole-picture and file round trip with "
+            "the dimensions the code computes, compare tool exits 0 iff metadata and all samples are equal, reported counts = number of differing "
+            "positions, metadata precedence, exit-code set, directory mode. PARTIAL: numpy object arithmetic, json, str/int, the file system and the "
+            "float PSNR are trusted; domain: every component non-empty, excursions >= 1.",
+            C_TIE + "intlog2 comes from the regenerated translation of vc2_math.py (tie T).",
+            "Coq proofs over hand models of file_format / picture_compare + differential run on real files at depths 1..64 (and beyond)",
+            "DESIGN.md 3 C23"),
+    "C22": (True,
+            "Theorems: whatever integer reaches the clip the sample lies in [0, 2^depth-1]; picture counts (>= 1, even for fields), numbering from 0, "
+            "line counts and plane sizes equal to dimensions_and_depths for any regular format. PARTIAL: the float colour pipeline (numpy, matrices, "
+            "transfer functions, PIL) is not modelled and is covered only by running every generator over a sweep of regular formats "
+            "(depths 1..63 plus a probe at >= 64 bits: one known finding).",
+            C_TIE + "intlog2 from the regenerated translation (tie T).",
+            "Coq proofs over the integer tail of the generators + oracle sweep of all generators on regular formats",
+            "DESIGN.md 3 C22"),
 }
 
 NOT_YET = "check not built yet (work in progress; see DESIGN.md section 7 work order)"
